@@ -224,3 +224,6 @@ def run(chk):
     check_binding(chk, F, P)
     check_thresh_algorithm(chk, F, P, chk.tier)
     c01.check_has_sig(chk, F, P, rid="R03.6")
+    from . import e2e
+    chk.guard("R03.7", "e2e", e2e.check, chk, F, "R03.7", "nonmall",
+              "end to end on a bounded family (~60 scripts x asset subsets): no single or double third-party edit (drop / insert / replace with 0, 1, revealed preimages, keys, zeros, junk, signatures already present) of a witness returned in non-malleable mode is accepted by the reference execution under MINIMALIF + NULLFAIL")
